@@ -158,7 +158,8 @@ def no_slash(s):
 # values the purl specification (PURL-TYPES) calls the default of a type: a tempting thing to "normalise away"
 SPEC_DEFAULTS = {
     "gem": [("platform", "ruby"), ("repository_url", "https://rubygems.org")],
-    "maven": [("type", "jar"), ("classifier", "sources"), ("repository_url", "https://repo.maven.apache.org/maven2"), ("type", "pom")],
+    "maven": [("type", "jar"), ("classifier", "sources"), ("repository_url", "https://repo.maven.apache.org/maven2"), ("type", "pom"),
+              ("packaging", "war"), ("packaging", "jar"), ("scope", "test"), ("extension", "jar"), ("ext", "pom")],
     "npm": [("repository_url", "https://registry.npmjs.org")],
     "pypi": [("repository_url", "https://pypi.org"), ("file_name", "name-1.0.tar.gz")],
     "cargo": [("repository_url", "https://crates.io")],
@@ -200,10 +201,11 @@ def rand_tuple(r, plain=False, ty=None):
         else:
             quals.append((k, text(r)))
     if r.chance(1, 6):
-        k, v = r.pick(SPEC_DEFAULTS.get(ty.lower(), []) + GENERIC_DEFAULTS)
-        if k not in seen:
-            seen.add(k)
-            quals.append((flipcase(r, k) if r.chance(1, 3) else k, v))
+        for _ in range(r.pick([1, 1, 2, 3])):
+            k, v = r.pick(SPEC_DEFAULTS.get(ty.lower(), []) * 2 + GENERIC_DEFAULTS)
+            if k not in seen:
+                seen.add(k)
+                quals.append((flipcase(r, k) if r.chance(1, 3) else k, v))
     if r.chance(1, 10):
         version = r.pick(DEFAULT_VERSIONS + ECO_VERSIONS)
     sub = []
